@@ -22,10 +22,10 @@ def hash_data_frame(d) -> str:
     # the row hashes look at bit patterns (and at str() of object cells): the types are part of the table
     col_types = [str(t) for t in d.dtypes]
     cell_types = [
-        [type(v).__name__ for v in d[c]]
-        for c in d.columns
-        if str(d[c].dtype) == "object"
-    ]
+        [type(v).__name__ for v in d.iloc[:, j]]
+        for j in range(d.shape[1])
+        if str(d.iloc[:, j].dtype) == "object"
+    ]  # by position: a query result may repeat a column name
     type_str = hashlib.sha256(str((col_types, cell_types)).encode("utf-8")).hexdigest()
     return f"{d.shape}_{list(d.columns)}_{hash_str}_{type_str}"
 
